@@ -6,6 +6,7 @@ mod dnscache;
 mod dnswalk;
 mod dnswire;
 mod ingest;
+mod conf;
 mod policy;
 mod radv;
 mod ratelimit;
@@ -29,6 +30,8 @@ fn main() {
         "acl" => acl::main(&args[2..]),
         "ingest" => ingest::main(&args[2..]),
         "ingest-child" => ingest::child_main(&args[2..]),
+        "conf" => conf::main(&args[2..]),
+        "conf-child" => conf::child_main(&args[2..]),
         "radv" => radv::main(&args[2..]),
         "rig" => rig::main(&args[2..]),
         "ratelimit" => ratelimit::main(&args[2..]),
